@@ -52,6 +52,7 @@ struct Ctx
     LD normS;         // ||A - sigma B|| in the shift modes (0 otherwise)
     LD condfac;       // condition number (1-norm estimate via explicit inverse) of the matrix that is factorized
     CVecL refspec;    // reference spectrum of the user's problem (if computed)
+    std::vector<ll> pres_re2, pres_im2;  // C04: prescribed spectrum in half-units (2*Re, 2*Im), same indexing as refspec
     std::string mode; // plain | si | csi | chol | reginv | gsi | buck | cay
     LD sigr, sigi;
     Ctx() : n(0), ip_ident(true), xip_ident(true), normPA(0), normPB(1), normOP(0), normIP(1), normS(0), condfac(1), sigr(0), sigi(0) {}
@@ -66,6 +67,26 @@ struct Ctx
         normIP = ip_ident ? 1.0L : IP.norm();
     }
 };
+
+// C04: the spectrum was prescribed with (Gaussian) integer values; the specification computes the wanted set exactly
+inline void set_prescribed(Ctx& cx, const CVecL& spec)
+{
+    cx.refspec = spec;
+    cx.pres_re2.clear();
+    cx.pres_im2.clear();
+    for (int i = 0; i < (int) spec.size(); i++)
+    {
+        cx.pres_re2.push_back((ll) std::llround(2.0L * spec[i].real()));
+        cx.pres_im2.push_back((ll) std::llround(2.0L * spec[i].imag()));
+    }
+}
+inline void set_prescribed(Ctx& cx, const VecL& spec)
+{
+    CVecL c(spec.size());
+    for (int i = 0; i < (int) spec.size(); i++)
+        c[i] = CLD(spec[i], 0);
+    set_prescribed(cx, c);
+}
 
 template <typename T, typename M>
 inline Eigen::Matrix<T, Eigen::Dynamic, Eigen::Dynamic> cast_mat(const M& m)
@@ -452,6 +473,17 @@ struct Runner
             l.arr("qdist", qdist).arr("ridx", ridx).arr("pidx", pidx).arr("rmult", rmult);
         l.i("qtol", q((LD) last_tol));
         out().put(l);
+        if (!cx.pres_re2.empty() && cur_args >= 0)
+        {
+            // C04: which prescribed eigenvalues were returned (nearest match, distance measured); the spec decides whether
+            // that index set is the one the selection rule names for the transformed spectrum
+            Line m("MSel");
+            m.i("info", (ll) eigs->info()).i("rule", argsets[cur_args].sel).i("k", (ll) Acc::nev(base()));
+            m.arr("re2", cx.pres_re2).arr("im2", cx.pres_im2);
+            m.i("sig2", (ll) std::llround(2.0L * cx.sigr)).i("sigi2", (ll) std::llround(2.0L * cx.sigi));
+            m.arr("ridx", ridx).arr("qdist", qdist);
+            out().put(m);
+        }
         sink.enabled = true;
     }
 
@@ -544,6 +576,7 @@ struct Runner
         {
             int aid = atoi(tok.c_str() + 1);
             const Args& a = argsets[aid];
+            cur_args = aid;
             last_tol = a.tol<Real>();
             {
                 Line l("Call");
